@@ -189,7 +189,38 @@ def c17_sweep(ctx, rng, stride=1, which="gen"):
     finally:
         shutil.rmtree(d, ignore_errors=True)
 
+def c17_layout_case(ctx, rng, layout):
+    """The process's working directory is not the directory of the configuration file (monorail is started from the repository root with
+    -f cfg/Monorail.json, or from a subdirectory with -f ../Monorail.json): untouched files stay usable, a touched source is still refused."""
+    lock_port, log_port = vlib.fresh_ports()
+    d = mk_dir(ctx, BASE)
+    try:
+        if layout == "config_in_subdir":
+            cwd = d; cfgdir = os.path.join(d, "cfg"); os.makedirs(cfgdir); src_rel = "cfg/Monorail.src.json"
+        else:
+            cwd = os.path.join(d, "tools"); os.makedirs(cwd); cfgdir = d; src_rel = "../Monorail.src.json"
+        doc = source_doc(0, lock_port, log_port); doc["source"]["path"] = src_rel
+        src = json.dumps(doc, indent=1).encode()
+        src_file = os.path.normpath(os.path.join(cwd, src_rel)); open(src_file, "wb").write(src)
+        cfgfile = os.path.join(cfgdir, "Monorail.json")
+        def run(*args, stdin=None):
+            e = dict(os.environ); e.update(vlib.GIT_ENV)
+            r = subprocess.run([vlib.BIN_MONORAIL, "-f", cfgfile] + list(args), cwd=cwd, env=e, input=stdin, capture_output=True, timeout=60)
+            return r.returncode
+        rc_gen = run("config", "generate", stdin=src)
+        ok_untouched = [run("config", "show"), run("target", "show")]
+        open(src_file, "wb").write(src[:40] + bytes([src[40] ^ 1]) + src[41:])
+        refused = [run("config", "show"), run("target", "show")]
+        ok = rc_gen == 0 and all(r == 0 for r in ok_untouched) and all(r != 0 for r in refused)
+        v = ctx.model.call("cfgfile", True, False, [], [], 1, [], rc_gen == 0 and all(r == 0 for r in ok_untouched))
+        ctx.count("layout_" + layout)
+        ctx.record({"layout": layout}, True, bool(v[2]), ok, True, sample={"layout": layout, "generate_rc": rc_gen, "untouched_rcs": ok_untouched, "touched_source_rcs": refused},
+                   detail={"what": "working directory differs from the configuration file's directory", "generate_rc": rc_gen, "untouched_rcs": ok_untouched, "touched_source_rcs": refused})
+    finally:
+        shutil.rmtree(d, ignore_errors=True)
+
 def run_c17(ctx, scale):
+    for layout in ("config_in_subdir", "cwd_in_subdir"): c17_layout_case(ctx, ctx.rng, layout)
     c17_sweep(ctx, ctx.rng, stride=1 if not ctx.quick() else 1, which="gen")
     c17_sweep(ctx, ctx.rng, stride=1, which="lock")
     if not ctx.quick(): c17_sweep(ctx, ctx.rng, stride=1, which="src")
@@ -257,10 +288,17 @@ def c18_case(ctx, rng, n_targets):
             cs = hashlib.sha256(which.encode("utf-8")).hexdigest() if stale != "garbage_checksum" else "0" * 64
             json.dump({"checksum": cs}, open(os.path.join(d, "Monorail.lock"), "w"))
         ctx.count("lockfile_" + stale)
+        # state written under one serialisation (a checkpoint) must be found under every other one: the directory is a git repository
+        genv = {**os.environ, **vlib.GIT_ENV}
+        for cmd in (["git", "init", "-q", "-b", "main"], ["git", "add", "-A"], ["git", "commit", "-q", "-m", "init"]):
+            subprocess.run(cmd, cwd=d, env=genv, capture_output=True)
+        open(os.path.join(d, "Monorail.json"), "w", encoding="utf-8").write(sers[0][1])
+        cli(d, "checkpoint", "update")
         for name, text in sers:
             open(os.path.join(d, "Monorail.json"), "w", encoding="utf-8").write(text)
             outs = {}
-            for api, args in (("config_show", ["config", "show"]), ("analyze", ["analyze", "--target-groups"]), ("target_show", ["target", "show", "--target-groups"])):
+            for api, args in (("config_show", ["config", "show"]), ("analyze", ["analyze", "--target-groups"]), ("target_show", ["target", "show", "--target-groups"]),
+                              ("checkpoint_show", ["checkpoint", "show"])):
                 rc, out, err, raw = cli(d, *args)
                 if out: out.pop("timestamp", None)
                 if err: err.pop("timestamp", None)
